@@ -30,8 +30,23 @@ def shape(spec):
     return dict(cmp=c[0], forms=forms)
 
 
+def entity_after_labelled_entity(spec):
+    """an of-entity aggregate 'host occurrences with <side> id L' that follows, in the sentence, an aggregate which introduces L as the
+    label of an ENTITY of that concept ('a room L hosts ...', '... host a shelf L')"""
+    c = spec['cmp']
+    aggs = [spec['agg']] + [x for x in c[1:] if isinstance(x, dict)]
+    for i, a in enumerate(aggs):
+        if a['form'] == 'entity' and a['label']:
+            for b in aggs[:i]:
+                if b['label'] == a['label'] and (b['form'].startswith('passive') or b['form'] == 'active'):
+                    return True
+    return False
+
+
 def finding_matches(f, spec):
     t = f.get('trigger', {})
+    if t.get('shape') == 'entity-aggregate-after-labelled-entity':
+        return entity_after_labelled_entity(spec)
     sh = shape(spec)
     if 'cmp' in t and sh['cmp'] not in t['cmp']:
         return False
@@ -65,6 +80,11 @@ def run(tier, seed):
             continue
         seen.add(t)
         specs.append(s)
+    # directed: the witness shape of every known finding is always part of the run (the finding must still be there, and be reported)
+    specs.append(dict(rooms=2, shelves=[(1, 3)], required=False,
+                      agg=dict(fn='count', form='passive_shelf', side='room', label='R', dlabel=None, filter=None),
+                      cmp=('agg', 'less than', dict(fn='count', form='entity', side='room', label='R', dlabel=None, filter=None)),
+                      whenever=[], owhere=None))
     texts = [gen_agg.render(s) for s in specs]
     res = impl.compile_many(texts)
     cases, meta = [], []
@@ -108,7 +128,7 @@ def run(tier, seed):
         tie_broken.append('translator failed closed: ' + tout[-400:])
     kf_idx = []
     if proof['ok'] or proof['extra_ok']:
-        kf_idx = common.run_cases(PID, 'corr', PRE, cases, 'corr_ok', shard=60)
+        kf_idx = [i for i in common.run_cases(PID, 'corr', PRE, cases, 'corr_ok', shard=60) if not meta[i]['known']]     # (a known finding is a difference by definition)
         rf = common.run_cases(PID, 'read', PRE, cases, 'reading_exact', shard=20)
         sf = common.run_cases(PID, 'rule', PRE, cases, 'rule_exact', shard=20)
         nviol = 0
@@ -123,7 +143,7 @@ def run(tier, seed):
         if kf_idx:
             tie_broken.append('compile model differs from the implementation (modulo variable renaming) on %d specifications, first: %r' % (
                 len(kf_idx), {k: meta[kf_idx[0]][k] for k in ('text', 'rule')}))
-        only_rule = [i for i in sf if i not in rf and i not in kf_idx]
+        only_rule = [i for i in sf if i not in rf and i not in kf_idx and not meta[i]['known']]
         if only_rule:
             tie_broken.append('the semantics given to the emitted rule (Cnl/Aggregate.v rule_violated) disagrees with clingo on %d specifications, first: %r' % (
                 len(only_rule), {k: meta[only_rule[0]][k] for k in ('text', 'rule')}))
